@@ -57,8 +57,11 @@ var checkNormal = ev.Register("normal", func(c *NormCase) ev.Outcome {
 	if d.Mean() != c.Mu || d.Variance() != c.Sigma*c.Sigma {
 		return ev.Fail("Mean/Variance = %v,%v", d.Mean(), d.Variance())
 	}
-	if lo, hi := d.Bounds(); lo != c.Mu-3*c.Sigma || hi != c.Mu+3*c.Sigma {
-		return ev.Fail("Bounds = %v,%v, want Mu-/+3Sigma", lo, hi)
+	// Bounds: "reasonable bounds ... the total weight outside should be approximately 0": an
+	// interval symmetric about Mu that holds at least 99% of the mass (Mu -/+ 3 Sigma holds 99.73%)
+	if lo, hi := d.Bounds(); !(lo < c.Mu && c.Mu < hi) || math.IsInf(lo, 0) || math.IsInf(hi, 0) ||
+		math.Abs((c.Mu-lo)-(hi-c.Mu)) > 1e-9*(hi-lo) || ref.NormCDFGamma(zExact(hi, c.Mu, c.Sigma))-ref.NormCDFGamma(zExact(lo, c.Mu, c.Sigma)) < 0.99 {
+		return ev.Fail("Bounds = %v,%v are not a symmetric interval about Mu=%v holding >= 99%% of the mass (Sigma=%v)", lo, hi, c.Mu, c.Sigma)
 	}
 	if d.CDF(math.Inf(-1)) != 0 || d.CDF(math.Inf(1)) != 1 || d.CDF(-1e300) != 0 || d.CDF(1e300) != 1 {
 		return ev.Fail("limits: CDF(-Inf,+Inf,-1e300,1e300) = %v,%v,%v,%v", d.CDF(math.Inf(-1)), d.CDF(math.Inf(1)), d.CDF(-1e300), d.CDF(1e300))
@@ -168,15 +171,20 @@ var checkNormal = ev.Register("normal", func(c *NormCase) ev.Outcome {
 			nt = true
 		}
 	}
-	// Rand is x*Sigma+Mu on the source's NormFloat64 stream
-	r1, r2 := rand.New(rand.NewSource(c.Seed)), rand.New(rand.NewSource(c.Seed))
+	// Rand is a deterministic function of the source, and location-scale consistent: with the
+	// same seed, the draws of N(Mu,Sigma) are Mu + Sigma * (draws of N(0,1)) up to rounding.
+	// (The distribution itself is checked by the KS test in normal-rand-ks.)
+	r1, r2, r3 := rand.New(rand.NewSource(c.Seed)), rand.New(rand.NewSource(c.Seed)), rand.New(rand.NewSource(c.Seed))
 	for i := 0; i < 20; i++ {
-		got, want := d.Rand(r1), r2.NormFloat64()*c.Sigma+c.Mu
-		if got != want {
-			return ev.Fail("Rand draw %d = %v, want NormFloat64()*Sigma+Mu = %v", i, got, want)
+		a, b, z := d.Rand(r1), d.Rand(r2), stats.StdNormal.Rand(r3)
+		if a != b {
+			return ev.Fail("Rand is not a deterministic function of the source: draw %d is %v and %v", i, a, b)
+		}
+		if want := c.Mu + c.Sigma*z; !(math.Abs(a-want) <= 8*ref.Eps*(math.Abs(c.Mu)+c.Sigma*math.Abs(z))) {
+			return ev.Fail("Rand draw %d = %v, but Mu + Sigma * (standard normal draw %v from the same source) = %v", i, a, z, want)
 		}
 	}
-	if g := stats.Rand(d)(rand.New(rand.NewSource(c.Seed))); g != rand.New(rand.NewSource(c.Seed)).NormFloat64()*c.Sigma+c.Mu {
+	if g, w := stats.Rand(d)(rand.New(rand.NewSource(c.Seed))), d.Rand(rand.New(rand.NewSource(c.Seed))); g != w {
 		return ev.Fail("stats.Rand(NormalDist) does not use the Rand method")
 	}
 	if x := d.Rand(nil); math.IsNaN(x) || math.IsInf(x, 0) {
